@@ -23,7 +23,7 @@ def parse_family(focus, quick_n, thorough_n, maxlen=7, inputs_per=3):
 
 PROPS = {
     'C01': dict(level='proof', theorem_modules=['C01', 'C09Lookahead', 'Accepted', 'BuildSet'], min_theorems=22, tags=['C01'], crash_counts=True,
-                gen=parse_family('C01', 3000, 40000), flavours=['c', 'c-weak'],
+                gen=lambda seed, tier: parse_family('C01', 3000, 40000)(seed, tier) + gen.gen_prefix_parse_cases(seed + 11, 400 if tier == 'thorough' else 40), flavours=['c', 'c-weak'],
                 rule='random grammars (1-5 nonterminals, nullable/recursive/ambiguous/error shapes) x sampled sentences, prefixes, mutations, random strings; every input parsed at lookahead 0,1,2 with random one_parse/cost and recovery on/off; non-trivial = distinct case text with at least one judged parse',
                 assumptions=COMMON_ASSUME + ['accepts_iff_sentence is proved for the level-0/1 model and accepts2_iff_sentence for the level-2 model, for every grammar readGrammar accepts (Props/Accepted.lean); recovery-on runs of non-sentences are judged by the recovery model; the set construction of build_new_set / expand_new_start_set / set_insert (start, derived and initial situations, cores shared by start situations) is modelled step for step at levels 0/1 (Model/BuildSet.lean) and proved to compute the abstract sets (buildPLC_eq_buildPL, acceptsC_iff_sentence); the tie compares the situations of every set with multiplicity, their order is only counted']),
     'C02': dict(level='proof', theorem_modules=['C02', 'Accepted', 'MakeParse', 'MakeParseSound', 'BuildSet', 'LaIndep2'], min_theorems=30, tags=['C02'], crash_counts=True,
@@ -61,7 +61,7 @@ PROPS = {
                 rule='ambiguity flag vs number of derivations / distinct translations, one_parse in {0,1}',
                 assumptions=COMMON_ASSUME + ['C05 is a theorem about the step models in both modes (Props/MakeParseFlag.lean): the flag is set only if the input has two different derivations (makeParse_one_amb_sound, makeParse_all_amb_sound: no hypothesis on duplicates in the sets -- an item held twice by a set of the build_pl model has two different derivations, dup_two_kids), and two derivations with different translations force it (makeParse_one_amb_complete, makeParse_all_amb_complete; accepted_amb_flag for every accepted grammar and user tokens); an input containing the code of `error` itself is outside these theorems (the example errTokGrammar shows the flag can stay off there) and outside the property (declared terminal codes of the user)']),
     'C10': dict(level='proof', theorem_modules=['C10', 'Generated', 'AnalysisC'], min_theorems=24, tags=['C10'], crash_counts=True,
-                gen=lambda seed, tier: gen.gen_def_cases(seed, 20000 if tier == 'thorough' else 2500), flavours=['c'],
+                gen=lambda seed, tier: gen.gen_def_cases(seed, 20000 if tier == 'thorough' else 2500), flavours=['c', 'c-weak'],
                 rule='random (mostly defective) terminal/rule lists through the callbacks, every defect class alone and in pairs, strict in {0,1}; return code vs model, symbol flags and rules vs model',
                 assumptions=COMMON_ASSUME + ['the three analysis loops of the C code (set_empty_access_derives, create_first_follow_sets, set_loop_p: pass structure, visiting order, change flags, breaks, in-place updates) are modelled step for step (Model/AnalysisC.lean) and proved to compute the abstract analysis (emptyAccessDerives_eq, firstFollowC_eq, loopC_eq, checkGrammarC_eq_built, readGrammar_eq_C); the flags they leave are compared with the library per definition']),
     'C11': dict(level='proof', theorem_modules=['C11', 'C11Yacc', 'C10', 'Generated'], min_theorems=8, tags=['C11', 'C01', 'C02', 'C03', 'C04', 'C05'], crash_counts=True,
